@@ -283,20 +283,24 @@ HOSTS = ['cam', 'cam.example.com', '10.0.0.7:554', 'h-1', '[::1]:8554', 'höst.e
 RESTS = ['', '', '/live', '/a/b.mp4', '/s?x=1#frag', '?q=1', '#f', '/x y', '/é']
 _counter = [0]
 
-def gen_secret(rng, plain=False):
+def gen_secret(rng, plain=False, comma=False):
     """a password that cannot occur anywhere by accident"""
     _counter[0] += 1
     core = 'pW%dq' % _counter[0]
     alpha = UCHARS + ':::' if not plain else 'abcXYZ019-_.~'
+    if comma:
+        alpha += ',,,,,,'        # RFC-valid in userinfo; only expressible where the text is not split on commas
     pre = ''.join(rng.choice(alpha) for _ in range(rng.randint(0, 3)))
     post = ''.join(rng.choice(alpha) for _ in range(rng.randint(0, 4)))
     return pre + core + post
 
-def gen_user(rng, plain=False):
+def gen_user(rng, plain=False, comma=False):
     alpha = UCHARS if not plain else 'abcXYZ019-_.~'
+    if comma:
+        alpha += ',,,,'
     return ''.join(rng.choice(alpha) for _ in range(rng.randint(1, 6)))
 
-def gen_uri(rng, scheme=None, plain=False, cred=True, empty_user=False, rest=None, host=None):
+def gen_uri(rng, scheme=None, plain=False, cred=True, empty_user=False, rest=None, host=None, comma=False):
     """-> dict(text, pw, scheme, user, host, rest, masked)   (masked = what must come out)"""
     scheme = scheme or rng.choice(SCHEMES)
     host = rng.choice(HOSTS) if host is None else host
@@ -304,8 +308,8 @@ def gen_uri(rng, scheme=None, plain=False, cred=True, empty_user=False, rest=Non
     if not cred:
         text = '%s://%s%s' % (scheme, host, rest)
         return dict(text=text, pw=None, scheme=scheme, user=None, host=host, rest=rest, masked=text)
-    user = '' if empty_user else gen_user(rng, plain)
-    pw = gen_secret(rng, plain)
+    user = '' if empty_user else gen_user(rng, plain, comma)
+    pw = gen_secret(rng, plain, comma)
     return dict(text='%s://%s:%s@%s%s' % (scheme, user, pw, host, rest), pw=pw, scheme=scheme, user=user, host=host,
                 rest=rest, masked='%s://****@%s%s' % (scheme, host, rest))
 
@@ -331,7 +335,7 @@ def scanner_cases(run, rng, n):
     for i in range(n):
         r = rng.random()
         if r < 0.30:                                        # a lone URI inside some text
-            u = gen_uri(rng, empty_user=rng.random() < 0.08)
+            u = gen_uri(rng, empty_user=rng.random() < 0.08, comma=rng.random() < 0.3)
             pre = rng.choice(PRES)
             post = rng.choice(['', '', '  (30.0 fps)', "'", "']", ' x', '\n'])
             if post and post[0] not in ' \n' and not u['rest']:
@@ -438,6 +442,7 @@ def gen_filter_case(rng, i):
     secrets = []
     top_kind = rng.choice(['dict', 'dict', 'adict', 'config'])
     def opt_secret(items, deep=None, **kw):
+        kw.setdefault('comma', rng.random() < 0.2)          # a comma in the credentials is RFC-valid; option values are never split
         u = gen_uri(rng, **kw)
         depth = rng.choice([0, 0, 1, 1, 2, 3]) if deep is None else deep
         key = rng.choice(OPTION_KEYS)
@@ -475,7 +480,8 @@ def gen_filter_case(rng, i):
         for j in range(k):
             plain = rng.random() < 0.4
             u = gen_uri(rng, scheme=rng.choice(['rtsp', 'rtsp', 'http', 'https', 'rtmp']) if rng.random() < 0.9 else 'file',
-                        plain=plain, cred=rng.random() < 0.8, rest=rng.choice(['', '/live', '/a/b.mp4', '/s?x=1']))
+                        plain=plain, cred=rng.random() < 0.8, rest=rng.choice(['', '/live', '/a/b.mp4', '/s?x=1']),
+                        comma=(form in ('records', 'list') and not plain and rng.random() < 0.3))
             if u['scheme'] == 'file':
                 u = gen_uri(rng, scheme='file', cred=False, host='', rest='/tmp/v%d.mp4' % j)
             if u['pw']:
@@ -640,7 +646,11 @@ def leak_cause(sec, leaf):
     if sec.get('user') == '':
         return 'mask:empty-user'
     if ',' in leaf:
-        return 'mask:comma-list-leak'
+        # the known finding is narrow: an item FOLLOWING a comma without a blank is swallowed by the previous item's host run;
+        # masked on its own that item is fine.  Anything else (e.g. a comma inside the credentials) is not that finding.
+        for i, part in enumerate(leaf.split(',')):
+            if i > 0 and sec['pw'] in part and not part[:1].isspace() and sec['pw'] not in hide_uri_users_and_pwds(part):
+                return 'mask:comma-list-leak'
     return 'mask:other'
 
 def filter_oracle(run, case, obs):
